@@ -77,6 +77,8 @@ MUTANTS = [
      "                except ZeroDivisionError:\n                    raise\n", ["C16"]),
     ("revert-D22-clean-index-first", "cli/clean.py",
      "    (ctx.output_path / VERSION_INDEX_NAME).unlink(missing_ok=True)\n", "    pass\n", ["C06"]),
+    ("revert-D23-staging-name", "config.py",
+     'ARCHIVE_STAGING = ".archive-tmp"\n', 'ARCHIVE_STAGING = "archive-tmp"\n', ["C08", "C12", "C11"]),
     ("loader-no-dup-check", "parsing/task_index.py",
      "                    if dep_identifier in task_deps_set:\n", "                    if dep_identifier in task_deps_set and len(task_deps) > 2:\n", ["C14"]),
 ]
